@@ -3,7 +3,7 @@
 This check covers the DECODER clause: theorems c14_alloc_bounded / c14_depth_bounded over the
 instrumented decoder model, and supervised decoding of the malformed stream by the real crate
 (child process, 2 MiB thread stack, address-space rlimit, panic hook, allocation meter).
-The running-node clause is hooked in at node_part()."""
+The running-node clause is node_part()."""
 import json
 import os
 
@@ -15,7 +15,7 @@ PROP = "C14"
 LEVEL_NOTE = ("decoder clause: theorems over the instrumented Gallina model of Message::decode (allocation log, nesting "
               "depth) for every byte string; the real crate decodes the malformed stream in a supervised child process. "
               "partial by nature: that the real allocator and stack survive what is requested is observed, not proved")
-RUN_TARGETS = ["run/Run_Krpc.vo"]
+RUN_TARGETS = ["run/Run_Krpc.vo", "run/Run_Handler.vo"]
 DEPTH_BOUND = 34          # c14_depth_bounded: MAX_DEPTH + 2
 
 SIZES = {
@@ -25,10 +25,93 @@ SIZES = {
 }
 
 
-def node_part(res):
-    """HOOK: the running-node clause of C14 (a node that receives any sequence of such datagrams keeps
-    serving: replies and API liveness after injection) is added here later."""
-    return
+def node_part(res, rng, inputs):
+    """The running-node clause: a real serving node on the simulated network receives the malformed stream (every
+    datagram of at most 1500 bytes, in random order, from several sources, interleaved with well-formed queries); it must not
+    panic, must keep answering pings and API calls, and its handler events must replay through the Coq model."""
+    import comp
+    import nodegen
+    import simlib
+    from simlib import S, MS
+    usable = [b for b in inputs if 0 < len(b) <= 1500]
+    n_runs = 4 if res.tier == "quick" else 16
+    per_run = 400 if res.tier == "quick" else 1500
+    scs = []
+    for k in range(n_runs):
+        r = rng.fork("node%d" % k)
+        sc = simlib.Scenario()
+        v6 = r.chance(1, 4)
+        own = comp.rand_id(r)
+        naddr = nodegen.addr_in_family(r, v6, 1)
+        sc.add("seed %d" % r.below(1 << 30))
+        sc.add("latency %d %d" % (1 * MS, 5 * MS))
+        ra = nodegen.addr_in_family(r, v6, 100)
+        rid = comp.rand_id(r)
+        sc.add_resp("r0", ra, rid, "normal")
+        sc.add("world %040x@%s" % (rid, ra.script()))
+        sc.add_node("n", naddr, own, ro=False, aport=None, nodes=[ra])
+        srcs = [nodegen.addr_in_family(r, v6, 1000 + i) for i in range(4)]
+        probe = nodegen.addr_in_family(r, v6, 5000)
+        t = 3 * S
+        probes = []
+        # corpus and the longest inputs first, then a random sample
+        chosen = usable[:60] + [usable[r.below(len(usable))] for _ in range(per_run)]
+        for j, b in enumerate(chosen):
+            t += r.range(1, 20) * MS
+            sc.add("at %d inject %s %s %s" % (t, srcs[r.below(len(srcs))].script(), naddr.script(), b.hex()))
+            if j % 25 == 24 or j == len(chosen) - 1:
+                t += 30 * MS
+                tid = "70%06x" % len(probes)
+                sc.add("at %d injectmsg %s %s t=%s q=ping id=%040x" % (t, probe.script(), naddr.script(), tid, own ^ 1))
+                probes.append(tid)
+        sc.add("at %d state n" % (t + 1 * S))
+        sc.add("end %d" % (t + 3 * S))
+        scs.append((sc, {"probes": probes, "probe": probe.script(), "naddr": naddr.script(), "n_injected": len(chosen)}))
+    logs = []
+    for sc, meta in scs:
+        try:
+            logs.append(simlib.run_sim(sc.text(), timeout=600))
+        except Broken as e:
+            res.violations.append({"property": PROP, "kind": "the process running the node died while receiving malformed datagrams",
+                                   "error": str(e)[-400:], "scenario": sc.lines,
+                                   "how": "harness sim < scenario (one inject line per datagram)"})
+            return
+    answered_total = 0
+    for (sc, meta), log in zip(scs, logs):
+        answered = set()
+        running = None
+        panics = []
+        for (t, kind, body) in log:
+            if kind == "PANIC":
+                panics.append(body[:300])
+            elif kind == "WIRE":
+                head, _, rendered = body.partition(" | ")
+                hp = head.split()
+                if hp[0] == meta["naddr"] and hp[1] == meta["probe"] and rendered.startswith("t=70") and " r " in rendered:
+                    answered.add(rendered.split(" ")[0][2:])
+            elif kind == "API_STATE":
+                running = "running=1" in body
+        answered_total += len(answered)
+        missing = [p for p in meta["probes"] if p not in answered]
+        if panics or missing or not running:
+            res.violations.append({"property": PROP, "kind": "node stopped serving after malformed datagrams",
+                                   "panics": panics[:3], "unanswered_pings": missing[:5], "api_state_running": running,
+                                   "scenario": sc.lines, "how": "harness sim < scenario (one inject line per datagram)"})
+            return
+    traces = [simlib.Trace(l, sc.node) for (sc, _), l in zip(scs, logs)]
+    blocks = simlib.validate_traces("c14_node", traces)
+    bad = [(t, vlib.parse_N_list(b[0])) for t, b in zip(traces, blocks) if vlib.parse_N_list(b[0])]
+    res.coverage["running_node"] = {"runs": len(scs), "datagrams_injected": sum(m["n_injected"] for _, m in scs),
+                                    "liveness_pings_answered": answered_total,
+                                    "handler_events_replayed_in_model": sum(len(t.events) for t in traces),
+                                    "traces_with_differences": len(bad)}
+    res.traces_validated = len(traces)
+    if bad:
+        t, d = bad[0]
+        e = t.events[d[0]]
+        res.broken_ties.append(("correspondence handler model (malformed datagrams): outputs differ on %d trace(s)" % len(bad),
+                                {"first_differing_event_index": d[0], "event_kind": e["kind"], "event_time": e["t"],
+                                 "datagram": e.get("hex", "")[:400]}))
 
 
 def load_corpus():
@@ -173,7 +256,8 @@ def run(res):
                    {"input": inputs[i0].hex()[:200], "class": stream[i0][0], "impl": decs[i0].status, "peak": decs[i0].peak}]
     res.assumptions = ["the model logs what the library requests (vec![0u8; len]) and how deep it recurses; that the real "
                        "allocator / a 2 MiB stack survive is observed on the stream, not proved",
-                       "running-node clause of C14 not covered by this check yet (node_part hook)"]
+                       "running-node clause: observed on simulated runs of the real node (no panic, pings and API answered after "
+                       "every batch of malformed datagrams), handler events replayed through the model"]
 
     # ---- verdicts
     how = "echo <input_hex> | %s codec decode   (status column: OK|ERR|PANIC|ABORT|SIGNAL n; 2nd column: largest allocation request)" % vlib.HARNESS_BIN
@@ -198,7 +282,8 @@ def run(res):
         res.broken_ties.append(("correspondence (instrumentation): the model logs an allocation larger than anything the "
                                 "implementation's meter saw on %d input(s)" % len(idiff),
                                 {"input_hex": inputs[i].hex(), "impl_peak": decs[i].peak, "model": krpc.show_model([inputs[i]])[0]}))
-    node_part(res)
+    if not res.violations:
+        node_part(res, rng.fork("nodepart"), inputs)
     return res.finish("proof", LEVEL_NOTE)
 
 
